@@ -336,10 +336,11 @@ theorem sext_logonReply (s : Sess) (im : InMsg) : SExt s (logonReply s im false)
   sx_cases
 
 theorem K_logonFinish {c : Ctx} (hc : CtxOK c) {s : Sess} (hk : K c s) {m : OutMsg} (hw : Wire c.P m)
-    (ha : isAdminKind m.kind = true) (hk4 : m.kind ≠ "4") {x : Sess} (hX : SExt s x) (h1 : s.store.target ≤ m.seq) :
-    K c (logonFinish x (toIn c.pcfg m)).1 ∧
-      (∀ r, (logonFinish x (toIn c.pcfg m)).2 = some (.rej r) → ∃ a b, r = .tooHigh a b) := by
+    (ha : isAdminKind m.kind = true) (hk4 : m.kind ≠ "4") {x : Sess} (hX : SExt s x) (h1 : s.store.target ≤ m.seq) (ns : Int) :
+    K c (logonFinish x (toIn c.pcfg m) ns).1 ∧
+      (∀ r, (logonFinish x (toIn c.pcfg m) ns).2 = some (LogonErr.rej r) → ∃ a b, r = Rej.tooHigh a b) := by
   unfold logonFinish
+  rw [nxEval_off _ _ _ (by show x.cfg.nextExpected = false; rw [hX.cfg, hk.cfg]; exact hc.nx)]
   simp only []
   generalize hx4 : ((x.setSentReset false).emit (Obs.armPeer (1200 * x.hb))).emit Obs.onLogon = x4
   have hX4 : SExt s x4 := by rw [← hx4]; sx_peel
@@ -376,7 +377,8 @@ theorem K_handleLogon {c : Ctx} (hc : CtxOK c) {s : Sess} (hk : K c s) {m : OutM
       exact ⟨h2.K hk, fun r hr => by simp only [Option.some.injEq, LogonErr.rej.injEq] at hr; exact Or.inl ⟨_, _, hr.symm⟩⟩
     · simp only [hlow, if_false]
       have h3 : SExt s (logonReply s2 (toIn c.pcfg m) false) := h2.trans (sext_logonReply s2 _)
-      obtain ⟨k1, k2⟩ := K_logonFinish hc hk hw ha hk4 h3 (by omega)
+      rw [logonTail_off _ _ _ (by rw [hcfg2]; exact hc.nx), pf_flag hc hw]
+      obtain ⟨k1, k2⟩ := K_logonFinish hc hk hw ha hk4 h3 (by omega) s.store.sender
       exact ⟨k1, fun r hr => Or.inr (k2 r hr)⟩
 
 end Qfx.Link
